@@ -240,6 +240,12 @@ class FactoredInference:
                 if nols or curr_loss - ans[0] >= 0.5*alpha*dL.dot(nu-mu):
                     break
                 alpha *= 0.5
+            if not nols and curr_loss - ans[0] <= 0:
+                # the step brought no decrease (e.g. the marginals are saturated at a vertex of
+                # the simplex): keep the previous iterate and do not let the step size grow,
+                # otherwise theta doubles every iteration until it leaves floating point range
+                theta, mu, ans = omega, nu, (curr_loss, dL)
+                alpha *= 0.5
 
         model.potentials = theta
         model.marginals = mu
